@@ -11,7 +11,7 @@ use crate::util::*;
 
 enum Judge {
     Field { name: String, wrappers: String, base: String, attr: bool },
-    Try { opt: bool, path: String, stmt: bool, args: String, pre: Vec<String>, post: Vec<String> },
+    Try { opt: bool, path: String, args: String, pre: Vec<String>, post: Vec<String> },
     Tuple,
     Paren { levels: g::Levels, atom: &'static str },
     Vis { enc: String },
@@ -146,7 +146,7 @@ fn build(rng: &mut Rng, thorough: bool) -> Vec<Case> {
                         if !thorough && pos >= 2 && (oi + ti) % 2 != 0 {
                             continue;
                         }
-                        let (src, pre, post, stmt) = match pos {
+                        let (src, pre, post, _stmt) = match pos {
                             0 => (format!("fn f() {{\n    let v = {};\n}}\n", mac), sv(&["fn", "f", "(", ")", "{", "let", "v", "="]), sv(&[";", "}"]), false),
                             1 => (format!("fn f() {{\n    {};\n}}\n", mac), sv(&["fn", "f", "(", ")", "{"]), sv(&[";", "}"]), true),
                             2 => (format!("fn f() {{\n    g({});\n}}\n", mac), sv(&["fn", "f", "(", ")", "{", "g", "("]), sv(&[")", ";", "}"]), false),
@@ -166,7 +166,7 @@ fn build(rng: &mut Rng, thorough: bool) -> Vec<Case> {
                                     ("r#tri", _) => "tri",
                                     (p, _) => p,
                                 };
-                                push(&mut v, "try", src.clone(), &[("use_try_shorthand", tf(opt)), ("edition", ed)], Judge::Try { opt, path: printed.to_string(), stmt, args: g::enc_args(op, tail), pre: pre.clone(), post: post.clone() });
+                                push(&mut v, "try", src.clone(), &[("use_try_shorthand", tf(opt)), ("edition", ed)], Judge::Try { opt, path: printed.to_string(), args: g::enc_args(op, tail), pre: pre.clone(), post: post.clone() });
                             }
                         }
                     }
@@ -350,12 +350,12 @@ fn judge(o: &mut Outcome, c: &Case, r: &FmtOut, printed_float: Option<&String>) 
             }
             None => fail(o, "unreadable"),
         },
-        Judge::Try { opt, path, stmt, args, pre, post } => {
+        Judge::Try { opt, path, args, pre, post } => {
             let it = lex(src, false);
             let ot = lex(out, false);
             match (strip(&it, pre, post), strip(&ot, pre, post)) {
                 (Some(i), Some(t)) => {
-                    o.push("oracle", "opt.try.judge", format!("opt.try.judge {} {} {} {} {} {}", b(*opt), enc_str(path), b(*stmt), args, enc_strs(i), enc_strs(t)), "ok".into(), desc, changed);
+                    o.push("oracle", "opt.try.judge", format!("opt.try.judge {} {} {} {} {}", b(*opt), enc_str(path), args, enc_strs(i), enc_strs(t)), "ok".into(), desc, changed);
                 }
                 _ => fail(o, "unreadable"),
             }
